@@ -1,0 +1,45 @@
+// Copyright 2020-2025 Buf Technologies, Inc.
+//
+// Licensed under the Apache License, Version 2.0 (the "License");
+// you may not use this file except in compliance with the License.
+// You may obtain a copy of the License at
+//
+//      http://www.apache.org/licenses/LICENSE-2.0
+//
+// Unless required by applicable law or agreed to in writing, software
+// distributed under the License is distributed on an "AS IS" BASIS,
+// WITHOUT WARRANTIES OR CONDITIONS OF ANY KIND, either express or implied.
+// See the License for the specific language governing permissions and
+// limitations under the License.
+
+//go:build verif
+package bufmodulecache
+
+// Contracts for the gocv verifier (see /verif/DESIGN.md). Comment-only. (author ca-r4h)
+//
+// C09: the caching provider is wired to exactly the delegate, the store functions and the commit-id functions it is given
+// (getValuesForKeys, contracted in zz_verif_contracts.go, speaks about these fields).
+//@ func newBaseProvider(logger, delegateGetValuesForKeys, storeGetValuesForKeys, storePutValues, keyToCommitID, valueToCommitID) (r)
+//@   property C09
+//@   ensures fresh: r != nil && !old(allocated(r))
+//@   ensures delegate-as-given: r.delegateGetValuesForKeys == delegateGetValuesForKeys
+//@   ensures store-as-given: r.storeGetValuesForKeys == storeGetValuesForKeys && r.storePutValues == storePutValues
+//@   ensures commit-id-functions-as-given: r.keyToCommitID == keyToCommitID && r.valueToCommitID == valueToCommitID
+//
+// The two concrete caching providers: values are matched to keys by the commit id OF THE VALUE'S OWN MODULE KEY (closure 0 /
+// closure 1 are the valueToCommitID literals), so a value read back from the store can only answer the key it was stored for.
+//@ func newModuleDataProvider(logger, delegate, store) (r)
+//@   property C09
+//@   ensures has-base: r != nil && r.baseProvider != nil
+//@   closure 0 ensures commit-id-of-the-values-key: r == moduleData.ModuleKey().CommitID()
+//@ func NewModuleDataProvider(logger, delegate, store) (r)
+//@   property C09
+//@   ensures r != nil && typeOf(r) == typeId(*moduleDataProvider)
+//@ func newCommitProvider(logger, delegate, store) (r)
+//@   property C09
+//@   ensures has-both-bases: r != nil && r.byModuleKey != nil && r.byCommitKey != nil
+//@   closure 0 ensures commit-id-of-the-commits-key: r == commit.ModuleKey().CommitID()
+//@   closure 1 ensures commit-id-of-the-commits-key: r == commit.ModuleKey().CommitID()
+//@ func NewCommitProvider(logger, delegate, store) (r)
+//@   property C09
+//@   ensures r != nil && typeOf(r) == typeId(*commitProvider)
